@@ -160,4 +160,44 @@ inline std::string runVata(const std::string& args, int& rc)
 }
 inline void writeFile(const std::string& path, const std::string& text) { FILE* f = fopen(path.c_str(), "w"); if (f) { fwrite(text.data(), 1, text.size(), f); fclose(f); } }
 
+// ---------------------------------------------------------------- case text -> reference structures
+// Parses the text a monitor writes as the description of a case (one or two automata in the
+// format of rm::toTimbuk / faToTimbuk: symbols s<i>:<rank> or x:0 a<i>:1, states q<n>). Own
+// parser — independent of the library's. Returns the number of automata read (0 on failure).
+inline int parseCaseText(const std::string& text, Alpha& al, std::vector<RTA>& auts)
+{
+	std::istringstream is(text); std::string line; RTA cur; bool inTrans = false, have = false; al.rank.clear(); auts.clear();
+	auto st = [](const std::string& w) -> St { size_t i = 0; while (i < w.size() && !isdigit(static_cast<unsigned char>(w[i]))) ++i; return strtoull(w.c_str() + i, nullptr, 10); };
+	auto symIdx = [](const std::string& w) -> int { if (w == "x") return -2; size_t i = 0; while (i < w.size() && !isdigit(static_cast<unsigned char>(w[i]))) ++i; return atoi(w.c_str() + i); };
+	while (std::getline(is, line))
+	{
+		if (line.compare(0, 3, "Ops") == 0)
+		{
+			if (have) { auts.push_back(cur); cur = RTA(); } have = true; inTrans = false;
+			std::istringstream ls(line.substr(3)); std::string w;
+			while (ls >> w) { size_t c = w.find(':'); if (c == std::string::npos) continue; int i = symIdx(w.substr(0, c)); int rk = atoi(w.c_str() + c + 1); if (i < 0) continue; if (static_cast<int>(al.rank.size()) <= i) al.rank.resize(i + 1, -1); al.rank[i] = rk; }
+		}
+		else if (line.compare(0, 12, "Final States") == 0) { std::istringstream ls(line.substr(12)); std::string w; while (ls >> w) cur.fin.insert(st(w)); }
+		else if (line.compare(0, 11, "Transitions") == 0) inTrans = true;
+		else if (inTrans && line.find("->") != std::string::npos)
+		{
+			size_t ar = line.find("->"); std::string lhs = line.substr(0, ar), rhs = line.substr(ar + 2); RRule r;
+			size_t pb = lhs.find('('); std::string sym = lhs.substr(0, pb == std::string::npos ? lhs.find_last_not_of(" \t") + 1 : pb);
+			r.sym = symIdx(sym); r.par = st(rhs);
+			if (pb != std::string::npos) { std::string inner = lhs.substr(pb + 1, lhs.find(')') - pb - 1); std::istringstream cs(inner); std::string w; while (std::getline(cs, w, ',')) if (!w.empty()) r.ch.push_back(st(w)); }
+			cur.rules.insert(r);
+		}
+	}
+	if (have) auts.push_back(cur);
+	return static_cast<int>(auts.size());
+}
+// the same for word automata: rules of symbol x (index -2) are start states
+inline int parseCaseTextFA(const std::string& text, int& nsym, std::vector<RFA>& auts)
+{
+	Alpha al; std::vector<RTA> ts; int n = parseCaseText(text, al, ts); auts.clear(); nsym = static_cast<int>(al.rank.size()); if (nsym < 1) nsym = 1;
+	for (auto& t : ts) { RFA f; f.fin = t.fin; for (auto& r : t.rules) { if (r.sym == -2 || r.ch.empty()) f.start.insert(r.par); else f.tr.insert(std::make_tuple(r.ch[0], r.sym, r.par)); } auts.push_back(f); }
+	return n;
+}
+inline std::string slurpFile(const std::string& p) { FILE* f = fopen(p.c_str(), "rb"); if (!f) return ""; std::string s; char buf[65536]; size_t n; while ((n = fread(buf, 1, sizeof buf, f)) > 0) s.append(buf, n); fclose(f); return s; }
+
 } // namespace vu
